@@ -204,9 +204,12 @@ class Ctx:
         r = sh(cmd)
         return r.returncode == 0, r.stdout
 
-    def gen_lean(self):
-        """Tie A: regenerate lean/UvModel/Generated/*.lean from /repo (only rewrites changed files)."""
-        r = sh([sys.executable, str(VERIF / "tools/gen_lean.py")])
+    def gen_lean(self, need=("core",)):
+        """Tie A: regenerate lean/UvModel/Generated/Kernels.lean from /repo (only rewritten if changed).
+        `need`: the kernel groups (gen_lean.py KERNELS `group=`, default "core" = the ones
+        UvModel/GenEq.lean is about) whose translation failing breaks THIS property; an untranslatable
+        kernel of another group only stops that group's own UvModel/GenEq/<group>.lean from building."""
+        r = sh([sys.executable, str(VERIF / "tools/gen_lean.py"), "--need", ",".join(need)])
         if r.returncode != 0:
             self.broken.append(("tie-A", "gen_lean.py", r.stdout[-4000:]))
             return False
